@@ -215,9 +215,10 @@ fn run_io_fault_probe(c: &mut Case) {
     let mut it: TagIteratorAsync<ScriptedAsyncRead, DynTag> = TagIteratorAsync::new(src, &[]);
     let mut items = Vec::new();
     let mut end = Ev::None;
+    crate::io::ASYNC_READ_LOG.with(|l| l.borrow_mut().clear());
     let r = guard(1 << 26, || {
         futures::executor::block_on(async {
-            for _ in 0..(base.items.len() + 4) {
+            for _ in 0..(2 * base.items.len() + 8) {
                 match it.next().await {
                     None => break,
                     Some(Ok(t)) => items.push((Item::from_tag(&t), it.last_emitted_tag_offset())),
@@ -235,14 +236,24 @@ fn run_io_fault_probe(c: &mut Case) {
     c.eval();
     c.count("async_io_fault_probes");
     let want = ErrRec::Read { kind: format!("{:?}", kind), msg: msg.clone() };
+    // How many reads an adapter makes per next() and when it reports a failed one is its own business (a repaired adapter
+    // may read several times per tag, or hand out what it has before it reports the error). What the statement leaves no
+    // room for: items that are not a prefix of the blocking parse, an error other than the source's, or a quiet end
+    // although the failing read was made.
+    let reads_made = crate::io::ASYNC_READ_LOG.with(|l| l.borrow().len());
+    let is_prefix = items.len() <= base.items.len() && items[..] == base.items[..items.len()];
     let what = if let Ev::Caught(cg) = &end {
         Some(format!("{}", cg.sig()))
-    } else if items[..] != base.items[..k.min(base.items.len())] {
+    } else if !is_prefix {
         Some("items-before-the-error-differ".to_string())
-    } else if end != Ev::Err(want.clone()) {
-        Some(format!("error-not-surfaced/{}", match &end { Ev::Err(e) => e.kind().to_string(), Ev::None => "ended-quietly".into(), _ => "?".into() }))
-    } else {
+    } else if end == Ev::Err(want.clone()) {
         None
+    } else if end == Ev::None && reads_made <= k && items.len() == base.items.len() {
+        // the failing read was never made: the document was complete before
+        c.count("async_io_fault_not_reached");
+        None
+    } else {
+        Some(format!("error-not-surfaced/{}", match &end { Ev::Err(e) => e.kind().to_string(), Ev::None => "ended-quietly".into(), _ => "?".into() }))
     };
     if let Some(w) = what {
         c.violation(
